@@ -1,5 +1,7 @@
-(* Model of the LAYER_n record of the native IcyDraw format, src/formats/icy_draw.rs (after the `fix:` commit that
-   makes the writer store every invisible cell as the bare INVISIBLE marker):
+(* Model of the LAYER_n record of the native IcyDraw format, src/formats/icy_draw.rs, as it is in the merged tree: after
+   the `fix:` commits "icy_draw writer stores every invisible cell as the bare INVISIBLE marker" (C07), "IcyDraw loader
+   rejects a cell whose character field is not a Unicode scalar value" and "IcyDraw read_utf8_encoded_string validates
+   the bytes of layer titles and font names" (both C10):
 
      IcyDraw::to_bytes        the per-layer part: write_utf8_encoded_string, role/mode/colour/flags/transparency/
                               offset/size/default_font_page, the 8-byte length, the row loop with its `> MAX` break,
@@ -7,7 +9,10 @@
                               row terminator                                         -> enc_cell, enc_row, enc_rows, encode
      IcyDraw::load_buffer     the `LAYER_n` branch (no `~k` continuation): read_utf8_encoded_string, the header fields
                               with every slice index as an explicit Panic, the length check, the row/cell loop with its
-                              `data length out ouf bounds` errors, char::from_u32_unchecked     -> dec_cell, dec_row, dec_rows, decode
+                              `data length out ouf bounds` errors, the checked char::from_u32 with its
+                              `invalid character code` error                                     -> dec_cell, dec_row, dec_rows, decode
+     read_utf8_encoded_string u32 length prefix, bytes, String::from_utf8_lossy(..).into_owned() -> the first three lines of decode
+     char::from_u32, String::from_utf8_lossy (std)                                    -> Model/Unicode.v (C10): char_from_u32, utf8_lossy
      Layer::get_char, Layer::set_char, Line::create, Line::set_char (src/layer.rs, src/line.rs)
                                                                                       -> get_char, set_char_lines, line_create, line_set
      AttributedChar::invisible / is_visible (src/attributed_char.rs)                  -> invisible_cell, is_visible
@@ -18,14 +23,17 @@
    (more than MAX = 3 000 000 bytes; impossible for layers up to 200 x 120, see IcyLayerProofs.fits_small). *)
 From Coq Require Import ZArith NArith List Bool.
 From IE Require Import Gen.IcyGen.
+From IE Require Model.Unicode.          (* not imported: Unicode.is_cont would shadow IcyDoc.is_cont *)
 Import ListNotations.
 Local Open Scope N_scope.
 
 Inductive res (A : Type) : Type :=
 | Ok (a : A)
 | Err (code : N)      (* 1 unsupported header size, 2 data length out of bounds, 3 unsupported layer mode, 4 font slot,
-                         5 font decode, 6 palette decode, 7 sauce decode, 8 not modelled (image layer / continuation chunk) *)
-| Panic (site : N).   (* 1 slice index out of range, 2 char::from_u32_unchecked precondition (abort), 3 arithmetic overflow *)
+                         5 font decode, 6 palette decode, 7 sauce decode, 8 not modelled (image layer / continuation chunk),
+                         9 invalid PNG container, 10 invalid character code in layer data *)
+| Panic (site : N).   (* 1 slice index out of range, 3 arithmetic overflow
+                         (site 2 was the abort of char::from_u32_unchecked; the merged loader has no such site any more) *)
 Arguments Ok {A} _. Arguments Err {A} _. Arguments Panic {A} _.
 
 Definition bind {A B} (r : res A) (f : A -> res B) : res B :=
@@ -58,7 +66,7 @@ Record cell := mkc { ch : N; fg : N; bg : N; page : N; attr : N }.
 
 Definition invisible_cell (p : N) : cell := mkc 32 7 0 p INVISIBLE.     (* AttributedChar::invisible().with_font_page(p) *)
 Definition is_visible (c : cell) : bool := N.land (attr c) INVISIBLE =? 0.
-Definition scalar (c : N) : bool := (c <? 55296) || ((57344 <=? c) && (c <? 1114112)).
+Definition scalar (c : N) : bool := Unicode.scalarb c.                   (* the values a Rust `char` can hold *)
 
 (* ---- layers ---- *)
 Inductive role_t := RNormal | RPastePreview | RPasteImage | RImage.
@@ -186,6 +194,14 @@ Inductive cellstep :=
 | CSkip (rest : list N)                (* invisible cell *)
 | CSet (c : cell) (rest : list N).
 
+(* `let Some(ch) = char::from_u32(ch) else { return Err(anyhow!("invalid character code {ch:#x} in layer data")) };`
+   then layer.set_char — the same statement closes the short and the long branch *)
+Definition checked_cell (c f b p at1 : N) (rest : list N) : res cellstep :=
+  match Unicode.char_from_u32 c with
+  | Some c' => Ok (CSet (mkc c' f b p at1) rest)
+  | None => Err 10
+  end.
+
 Definition dec_cell (bs : list N) : res cellstep :=
   match takeN 2 bs with
   | None => Err 2                                                     (* o + 2 > bytes.len() *)
@@ -200,7 +216,7 @@ Definition dec_cell (bs : list N) : res cellstep :=
       | None => Err 2                                                 (* o + 3 > bytes.len() *)
       | Some _ =>
         match r with
-        | c :: f :: b :: p :: r' => Ok (CSet (mkc c f b p at1) r')
+        | c :: f :: b :: p :: r' => checked_cell c f b p at1 r'        (* a byte is always a scalar value *)
         | _ => Panic 1                                                (* exactly 3 bytes left: bytes[o] of the font page *)
         end
       end
@@ -208,10 +224,7 @@ Definition dec_cell (bs : list N) : res cellstep :=
       match takeN 14 r with
       | None => Err 2                                                 (* o + 14 > bytes.len() *)
       | Some (d, r') =>
-        let c := unle (firstn 4 d) in
-        if scalar c then
-          Ok (CSet (mkc c (unle (firstn 4 (skipn 4 d))) (unle (firstn 4 (skipn 8 d))) (unle (skipn 12 d)) at1) r')
-        else Panic 2
+        checked_cell (unle (firstn 4 d)) (unle (firstn 4 (skipn 4 d))) (unle (firstn 4 (skipn 8 d))) (unle (skipn 12 d)) at1 r'
       end
   end.
 
@@ -245,7 +258,7 @@ Definition decode (bs : list N) : res layer :=
   do p <- take 4 bs;                                    (* read_utf8_encoded_string: data[0..4] *)
   let size := unle (fst p) in
   do p <- take size (snd p);                            (* data[4..4 + size] *)
-  let ttl := fst p in
+  let ttl := Unicode.utf8_lossy (fst p) in              (* String::from_utf8_lossy(&data[4..4 + size]).into_owned() *)
   do p <- byte (snd p); let rl := fst p in
   do p <- byte (skipn 4 (snd p));                       (* o += 4; mode = bytes[o] *)
   let md := fst p in
